@@ -11,6 +11,7 @@ import Driver.RemoteDef
 import Driver.Wire
 import Driver.Convert
 import Driver.Stream
+import Driver.Lookup
 
 open Panrpc
 
@@ -67,6 +68,7 @@ def bcSummary (s : Bc.State) : String :=
 structure St where
   bc : Bc.State := Bc.init
   stm : St.State := St.init []
+  lk : Driver.Lk.LkState := {}
   dead : Bool := false     -- a previous line of this trace was rejected
 
 def handle (st : St) (line : String) : St × String :=
@@ -92,6 +94,9 @@ def handle (st : St) (line : String) : St × String :=
   | "rw" :: rest => (st, RwQ.remoteDefQuery rest)
   | "wire" :: rest => (st, WireQ.wireQuery rest)
   | "cv" :: rest => (st, Driver.Cv.convertQuery rest)
+  | "lk" :: rest =>
+    let (lk', a) := Driver.Lk.lookupStep st.lk rest
+    ({ st with lk := lk' }, a)
   | "st" :: "run" :: rest => (st, streamQuery ("run" :: rest))
   | "st" :: rest =>
     let (s', rej, ans) := streamHandle st.stm rest
